@@ -80,6 +80,7 @@ struct SPlan {
   int pct_d = 3;
   uint64_t sseed = 1;
   uint64_t func_interval = 0;
+  uint64_t acc_interval = 0;
   std::vector<Switch> schedule;     // replay
   Json ToJson() const {
     Json j = Json::Object();
@@ -98,6 +99,7 @@ struct SPlan {
     j["pct_d"] = pct_d;
     j["sseed"] = static_cast<unsigned long long>(sseed);
     j["func_interval"] = static_cast<unsigned long long>(func_interval);
+    if (acc_interval) j["acc_interval"] = static_cast<unsigned long long>(acc_interval);
     Json s = Json::Array();
     for (const Switch &sw : schedule) {
       Json e = Json::Array();
@@ -122,6 +124,7 @@ struct SPlan {
     p.pct_d = static_cast<int>(j.get("pct_d").Int(3));
     p.sseed = j.get("sseed").U64(1);
     p.func_interval = j.get("func_interval").U64(0);
+    p.acc_interval = j.has("acc_interval") ? j.get("acc_interval").U64(0) : 0;
     const Json &s = j.get("schedule");
     for (size_t i = 0; i < s.size(); ++i) {
       Switch sw;
@@ -288,6 +291,33 @@ SPlan GenerateSPlan(uint64_t seed, int max_tasks, bool canary) {
       p.tasks[t] = ops;
     }
   }
+  // Big-mesh plans (rare, expensive): three or four tasks that each encode a
+  // mesh of 22..26 thousand faces (above 2^16 corners), sometimes next to a
+  // small one. Scratch state that is only shared above a size threshold, and
+  // ownership protocols that need three overlapping calls, show only here.
+  if (!canary && r.Fork("big-mesh").Chance(1, 80)) {
+    const size_t nt = 3 + r.Fork("big-mesh-n").Below(2);
+    p.tasks.resize(nt);
+    for (size_t t = 0; t < nt; ++t) {
+      Rng rw = r.Fork(7800 + t);
+      SOp op;
+      op.kind = rw.Chance(4, 5) ? 0 : 1;
+      Workload w;
+      w.kind = 0;
+      w.topo = 0;
+      w.n = rw.Chance(1, 4) ? static_cast<int>(rw.Range(20, 200))
+                            : static_cast<int>(rw.Range(22000, 26000));
+      w.gseed = rw.Next() >> 2;
+      w.jit = 0;
+      AttDesc pos;
+      w.atts.push_back(pos);
+      w.method = 1;
+      w.qb[0] = 11;
+      w.espeed = w.dspeed = static_cast<int>(rw.Range(5, 9));
+      op.w = w;
+      p.tasks[t].assign(1, op);
+    }
+  }
   const uint64_t s = r.Below(3);
   p.strategy = s == 0 ? "pct" : "random";
   static const int ps[] = {2, 10, 50, 200, 600};
@@ -296,6 +326,8 @@ SPlan GenerateSPlan(uint64_t seed, int max_tasks, bool canary) {
   p.sseed = r.Next() >> 2;
   static const uint64_t fi[] = {0, 200, 2000, 20000};
   p.func_interval = fi[r.Below(4)];
+  static const uint64_t ai[] = {0, 0, 3000, 30000, 300000};
+  p.acc_interval = ai[r.Fork("acc").Below(5)];
   return p;
 }
 
@@ -581,6 +613,7 @@ void RunConcurrent(const SPlan &p, const std::vector<std::vector<OpInput>> &in,
     s.pct_points.push_back(static_cast<int64_t>(1 + pr.Below(4000)));
   g_sched = &s;
   TsanSetFuncSampling(p.func_interval, p.sseed);
+  TsanSetAccessSampling(p.acc_interval);
   TsanBeginEpisode(s.n);
   s.active = true;
   for (int i = 0; i < s.n; ++i)
